@@ -14,6 +14,8 @@ A_FILES = {
                      "    a = s%side\n  end function area\n  subroutine grow(self)\n    class(shape_t), intent(inout) :: self\n  end subroutine grow\n  subroutine make(s)\n    type(shape_t), intent(out) :: s\n"
                      "  end subroutine make\n  subroutine internal_only()\n  end subroutine internal_only\nend module liba_core\n"),
     "src/helper.f90": "module helper\n  !! a module of A whose name B uses for a procedure\n  integer :: hv\nend module helper\n",
+    # the public face of A re-exports two entities under new names
+    "src/api.f90": ("module liba_api\n  !! what A offers\n  use liba_core, only: solve => area, grid_t => shape_t, make\n  implicit none\n  private\n  public :: solve, grid_t\nend module liba_api\n"),
     "src/utils.f90": "module utils\n  !! A's utils\n  implicit none\n  type :: vec_t\n    real :: x\n  end type vec_t\ncontains\n  function norm(v) result(n)\n    type(vec_t) :: v\n    real :: n\n    n = v%x\n  end function norm\nend module utils\n",
 }
 B_FILES = {
@@ -22,6 +24,7 @@ B_FILES = {
                   "  subroutine local_wins()\n    !! has an internal procedure named like one of A's\n    call make()\n  contains\n    subroutine make()\n      !! the internal one\n    end subroutine make\n"
                   "  end subroutine local_wins\nend module b_mod\n"),
     "src/utils.f90": "module utils\n  !! B's own utils\n  implicit none\n  type :: vec_t\n    real :: y\n  end type vec_t\ncontains\n  function norm(v) result(n)\n    type(vec_t) :: v\n    real :: n\n    n = v%y\n  end function norm\nend module utils\n",
+    "src/api_user.f90": "module b_api_user\n  !! uses the re-exported names\n  use liba_api, only: solve, grid_t\n  implicit none\n  type(grid_t) :: g\ncontains\n  subroutine run_it()\n    real :: r\n    r = solve(g)\n  end subroutine run_it\nend module b_api_user\n",
     "src/h.f90": "subroutine helper()\n  !! B's own helper, see [[helper]]\nend subroutine helper\n",
     "src/p.f90": "program main\n  !! see [[utils]] and [[vec_t]] and [[norm]] and [[helper]]\n  use utils\n  use b_mod\n  type(vec_t) :: v\n  type, extends(vec_t) :: vv\n  end type vv\n  print *, norm(v)\nend program main\n",
 }
@@ -72,6 +75,9 @@ def check_export(adoc):
         got[m["name"]] = {k: sorted((m.get(k) or {}).keys()) for k in ("pub_procs", "pub_types", "pub_vars", "pub_absints")}
     if got != exp:
         bad.append(f"modules.json lists {got}, A's modules and public entities are {exp}")
+    api = {"pub_procs": ["solve"], "pub_types": ["grid_t"], "pub_vars": [], "pub_absints": []}
+    if "liba_api" in exp and got.get("liba_api") != api:
+        bad.append(f"modules.json lists {got.get('liba_api')} for liba_api; it re-exports `solve` and `grid_t` (the local names its PUBLIC statement lists) and keeps `make` private")
     # the plain entity lists of a module hold nothing that another project cannot access
     for m in mods:
         public = set().union(*[set((m.get(k) or {}).keys()) for k in ("pub_procs", "pub_types", "pub_vars", "pub_absints")])
